@@ -142,6 +142,15 @@ def run(chk):
         checks.append(("cdist", meta, rc, unchanged, (ma, mb)))
         ops.append({"op": "tcr_pdist", "chain": chain, "cdr": cdr, "w": wl, "xs": ma})
         checks.append(("pdist", meta, rp, unchanged, (ma, None)))
+        # a comparison table with NO rows (a filter that matched nothing): a matrix of len(A) rows and no column; and the reverse
+        if t < 12:
+            E = B.iloc[0:0]
+            r0 = core.call_real(lambda: np.asarray(metric.calc_cdist_matrix(A, E)).shape)
+            r1 = core.call_real(lambda: np.asarray(metric.calc_cdist_matrix(E, A)).shape)
+            chk.count("cdist:empty-table")
+            if r0 != ("ok", (len(A), 0)) or r1 != ("ok", (0, len(A))):
+                chk.violation(f"C09|{cname}|cdist|empty-table", f"{cname}.calc_cdist_matrix with a table of no rows gives shapes {r0} / {r1}, expected "
+                              f"({len(A)}, 0) / (0, {len(A)})", meta)
         # the SAME table object on both sides: every cell (with unequal gap weights the matrix is not symmetric)
         rs = core.call_real(lambda: np.asarray(metric.calc_cdist_matrix(A, A)))
         ops.append({"op": "tcr_cdist", "chain": chain, "cdr": cdr, "w": wl, "as": ma, "bs": ma})
